@@ -277,7 +277,7 @@ class SimBridge:
         self.shutdown_called = False
         self.failures: list[str] = []
         self.max_exec_steps, self.max_batch = max_exec_steps, max_batch
-        self.script: list | None = None      # optional schedule script (list of choices), else rng
+        self.chooser = None                  # exhaustive mode: an object with choose(n) -> index (see record_all_orders)
 
     # ---- Bridge API used by the controller
     def get_environment(self):
@@ -399,6 +399,8 @@ class SimBridge:
             rec.log("store", d=D(ds), src=src, tgt=tgt)
 
     def some_steps(self, n: int | None = None):
+        if self.chooser is not None:
+            return        # exhaustive mode: executors run to quiescence inside recv_events only
         n = self.rng.randint(0, self.max_exec_steps) if n is None else n
         for _ in range(n):
             en = self.enabled()
@@ -409,6 +411,8 @@ class SimBridge:
     def recv_events(self):
         self.calls += 1
         rng = self.rng
+        if self.chooser is not None:
+            return self._recv_one_chosen()
         self.some_steps()
 
         def avail():
@@ -437,6 +441,62 @@ class SimBridge:
         return out
 
 
+def _recv_one_chosen(self):
+    """Exhaustive mode: executors run to quiescence (deterministic order), then ONE pending event or payload, picked by
+    the chooser, is delivered.  Enumerating the chooser's decisions enumerates every delivery order."""
+    while True:
+        en = self.enabled()
+        if not en:
+            break
+        self.step(sorted(en, key=lambda e: (e[0], repr(e[1])))[0])
+    opts = [("h", h) for h in self.hosts if self.events[h]] + [("p", i) for i in range(len(self.payloads))]
+    if not opts:
+        self.rec.log("deadlock")
+        raise Deadlock("recv_events called with nothing outstanding")
+    kind, a = opts[self.chooser.choose(len(opts))]
+    if kind == "p":
+        ds, src, v, fn = self.payloads.pop(a)
+        self.rec.log("recvpayload", d=D(ds), src=src)
+        return [DatasetTransmitPayload(DatasetTransmitPayloadHeader("x", 0, ds, fn), v)]
+    e = self.events[a].pop(0)
+    self.rec.log("recvevent", h=a, d=D(e.ds), w=repr(e.origin) if isinstance(e.origin, WorkerId) else "host",
+                 x=e.transmit_idx is not None)
+    return [e]
+
+
+SimBridge._recv_one_chosen = _recv_one_chosen
+
+
+class Chooser:
+    def __init__(self, prefix):
+        self.prefix, self.taken = list(prefix), []
+
+    def choose(self, n: int) -> int:
+        k = len(self.taken)
+        i = self.prefix[k] if k < len(self.prefix) else 0
+        i = min(i, n - 1)
+        self.taken.append((i, n))
+        return i
+
+
+def record_all_orders(inst, job, env, pre, expected, cap: int = 3000) -> tuple[list[list[dict]], bool]:
+    """Stateless DFS over the chooser's decisions: every order in which events and payloads can reach the controller
+    (executors run to quiescence between deliveries).  Returns (traces, complete?)."""
+    traces, prefix = [], []
+    while True:
+        ch = Chooser(prefix)
+        traces.append(record(inst, job, env, pre, 0, expected, chooser=ch))
+        taken = ch.taken
+        k = len(taken) - 1
+        while k >= 0 and taken[k][0] + 1 >= taken[k][1]:
+            k -= 1
+        if k < 0:
+            return traces, True
+        prefix = [t[0] for t in taken[:k]] + [taken[k][0] + 1]
+        if len(traces) >= cap:
+            return traces, False
+
+
 class TaskFailed(Exception):
     pass
 
@@ -460,11 +520,12 @@ def comp_names(pre) -> tuple[dict[int, str], dict[str, str]]:
 
 
 def record(inst: Instance, job: JobInstance, env: Environment, pre, seed: int, expected: dict,
-           budget_s: int = 5, **simkw) -> list[dict]:
+           budget_s: int = 5, chooser=None, **simkw) -> list[dict]:
     cn, _ = comp_names(pre)
     rec = Rec(cn)
     rng = random.Random(seed)
     b = SimBridge(env, job, inst, rng, rec, **simkw)
+    b.chooser = chooser
     o_act, o_plan, o_flush, o_notify = impl.act, impl.plan, impl.flush_queues, impl.notify
     o_ba, o_mig = ASSIGN.build_assignment, API.migrate_to_component
     round_state = {"migrated": False, "flushes_idle": 0}
